@@ -23,7 +23,7 @@ import core
 from ser import Ser, Unsupported, rat
 
 LEAN_MODULE = "Optyx.Props.C11"
-EXTRA_MODULES = ["Optyx.Props.PinsC11"]   # transcription anchors (harness/source_pins.py)
+EXTRA_MODULES = ["Optyx.Props.PinsC11", "Optyx.Props.OperatorsTie"]   # transcription anchors (harness/source_pins.py)
 THEOREMS = [
     "Optyx.Props.C11.getitem_denote",
     "Optyx.Props.C11.slice_denote",
@@ -54,6 +54,9 @@ THEOREMS = [
     "Optyx.Props.C11.diagMatrix_entry",
     "Optyx.Props.C11.shape_mismatch_raises",
     "Optyx.Props.C11.distinct_preserved",
+    "Optyx.Props.OperatorsTie.operators_spec",
+    "Optyx.Props.OperatorsTie.comparisons_spec",
+    "Optyx.Props.OperatorsTie.ensureExpr_text",
     "Optyx.Props.PinsC11.anchors",
 ]
 ASSUMPTIONS = [
